@@ -201,11 +201,21 @@ class C05(Prop):
             ctx.violation('transparency:schema', obs['step'], 'schemas seen downstream differ with the observer: %s vs %s; %s' % (
                 json.dumps(schema_view(C['dp']))[:400], json.dumps(schema_view(B['dp']))[:400], desc), observer=obs['step'])
         pending = []
-        if C['rows'] != B['rows'] and obs['step'] in ('dump_to_path', 'dump_to_zip') and not A.get('cast_fixed') and numeric_norm(C['rows']) == numeric_norm(B['rows']):
-            # lowest priority (known finding C05-dumper-casts-values): the only difference is float vs Decimal of equal value
+        as_validate = False
+        if C['rows'] != B['rows'] and obs['step'] in ('dump_to_path', 'dump_to_zip') and not A.get('cast_fixed'):
+            # does the dumper behave exactly like a validate() step at its position?  (it runs its own schema validator
+            # over the rows and passes the cast rows on)
+            d2 = os.path.join(ctx.scratch, 'Bv')
+            os.makedirs(d2, exist_ok=True)
+            os.chdir(d2)
+            sc_v = dict(sc, observer={'step': 'validate'})
+            Bv = ctx.subrun(_run, {'sc': sc_v, 'with_observer': True, 'with_suffix': True})
+            as_validate = Bv['status'] == 'ok' and Bv['value']['rows'] == C['rows'] and schema_view(Bv['value']['dp']) == schema_view(C['dp'])
+        if as_validate:
+            # lowest priority (known finding C05-dumper-casts-values)
             from .c01 import first_diff
-            pending.append(('transparency:rows', 'dumper-casts-values', 'a file dumper hands the rows on after casting them to the declared types: downstream sees %s; %s' % (
-                first_diff(C['rows'], B['rows']), desc), {'observer': obs['step'], 'numeric_equal': True}))
+            pending.append(('transparency:rows', 'dumper-casts-values', 'a file dumper hands the rows on after casting them to the declared types, exactly as a validate() step at its position would: '
+                            'downstream sees %s; %s' % (first_diff(C['rows'], B['rows']), desc), {'observer': obs['step'], 'equals_validate': True}))
         elif C['rows'] != B['rows']:
             from .c01 import first_diff
             ctx.violation('transparency:rows', obs['step'], 'rows seen downstream differ with the observer at %s; %s' % (first_diff(C['rows'], B['rows']), desc), observer=obs['step'])
